@@ -8,6 +8,7 @@ import CV.AsmSel
 import CV.Inline
 import CV.Opt
 import CV.Gen.Tables
+import CV.Cpp
 namespace CV
 
 structure LoadedProg where
@@ -196,6 +197,38 @@ def handle (st : DState) (line : String) : DState × String :=
     match codeOfTokens toks with
     | some code => let (c, n) := optimize code; (st, "ok " ++ toString n ++ " " ++ tokensOfCode c)
     | none => (st, "badreq")
+  -- cpp <mainhex> [D=<hex of NAME=VALUE>]* [F=<namehex>:<contenthex>]* [M=<namehex>]
+  | "cpp" :: mainh :: opts =>
+    let defines := opts.filterMap fun t =>
+      if t.startsWith "D=" then
+        (unhexStr (t.drop 2).toString).map fun d =>
+          match d.splitOn "=" with
+          | [n] => (n.toList, ['1'])
+          | n :: rest => (n.toList, ("=".intercalate rest).toList)
+          | [] => ([], [])
+      else none
+    let files := opts.filterMap fun t =>
+      if t.startsWith "F=" then
+        match (t.drop 2).toString.splitOn ":" with
+        | [n, c] => do let n ← unhexStr n; let c ← unhexStr c; some (n, c.toList)
+        | _ => none
+      else none
+    let name := (opts.filterMap fun t => if t.startsWith "M=" then unhexStr (t.drop 2).toString else none).headD "main.c"
+    match unhexStr mainh with
+    | none => (st, "badreq")
+    | some src =>
+      let showEntry := fun (e : Cpp.Entry) =>
+        hexStr e.file ++ ":" ++ toString e.line ++ ":" ++
+          (match e.inc with | some (f, l) => hexStr f ++ ":" ++ toString l | none => "-:-")
+      (match Cpp.process files name defines src.toList with
+       | .ok out mp ctx =>
+         (st, "ok " ++ hexStr (String.ofList out) ++ " | " ++ " ".intercalate (mp.map showEntry) ++ " | " ++
+              " ".intercalate (ctx.literals.map fun l => hexStr (String.ofList l)))
+       | .err e =>
+         (st, "err " ++ (match e.kind with | .syntax => "syntax" | .compiler => "compiler" | .io => "io") ++ " " ++
+              hexStr e.file ++ " " ++ toString e.line ++ " " ++
+              (match e.inc with | some (f, l) => hexStr f ++ " " ++ toString l | none => "- -") ++ " " ++ hexStr e.msg)
+       | .diverge => (st, "diverge"))
   -- branch <line tokens>
   | "branch" :: toks =>
     match codeOfTokens toks with
